@@ -405,6 +405,12 @@ def generate(rng, tier):
         yield {'kind': 'user/%s/%s' % ('conflicts' if conflicts else 'one-image', 'rotations' if add_rot else 'plain'),
                'op': 'user', 'items': _user_table(rng, ns, conflicts), 'add_rot': add_rot, 'ns': ns,
                'masked': i % 5 == 0, 'dtype': ['int64', 'int32', 'uint8', 'int8', 'float64'][i % 5] if i % 3 else None}
+    # ---- marker keys: five pairwise distinct states pin each rotation down as a permutation of positions
+    for i, perm in enumerate([(0, 1, 2, 3, 4), (4, 3, 2, 1, 0), (2, 0, 4, 1, 3), (1, 2, 3, 4, 0)]):
+        for add_rot in (True, False):
+            yield {'kind': 'user/marker/%s' % ('rotations' if add_rot else 'plain'), 'op': 'user',
+                   'items': [[list(perm), 7]] + ([[[perm[0], perm[4], perm[1], perm[2], perm[3]], 3]] if i == 3 else []),
+                   'add_rot': add_rot, 'ns': 5, 'masked': bool(i % 2)}
     # ---- no aliasing: the caller edits its dict AFTER the rule was constructed (delete / add / re-image); the rule
     #      must keep answering with the table it was constructed with
     na = 100 if tier == 'quick' else 1500
@@ -642,6 +648,184 @@ def _shape(fn):
     return _ast.dump(mod, annotate_fields=False)
 
 
+_SAFE_BUILTINS = {'list', 'tuple', 'dict', 'range', 'len', 'enumerate', 'zip', 'reversed', 'sorted', 'iter', 'next',
+                  'bool', 'int', 'set', 'frozenset', 'map', 'filter', 'any', 'all', 'sum', 'min', 'max', 'isinstance',
+                  'True', 'False', 'None'}
+_PARAM_READONLY_ATTRS = {'items', 'keys', 'values', 'get', 'copy'}
+_FORBIDDEN_NODES = (_ast.Global, _ast.Nonlocal, _ast.FunctionDef, _ast.AsyncFunctionDef, _ast.Lambda, _ast.ClassDef,
+                    _ast.Import, _ast.ImportFrom, _ast.Delete, _ast.With, _ast.AsyncWith, _ast.Try, _ast.Yield,
+                    _ast.YieldFrom, _ast.Await, _ast.NamedExpr, _ast.While)
+
+
+def _purity(fn):
+    """AST condition (ii): the function only reads its parameters, assigns local names and writes into containers it
+    created itself. Returns a list of objections (empty = pure as far as the AST can tell)."""
+    bad = []
+    a = fn.args
+    params = [x.arg for x in a.posonlyargs + a.args + a.kwonlyargs]
+    if a.vararg or a.kwarg:
+        bad.append('*args / **kwargs')
+    for d in list(a.defaults) + [d for d in a.kw_defaults if d is not None]:
+        if not isinstance(d, _ast.Constant):
+            bad.append('default argument that is not a constant')
+    for dec in fn.decorator_list:
+        if not (isinstance(dec, _ast.Name) and dec.id == 'staticmethod'):
+            bad.append('decorator other than staticmethod')
+    body_nodes = [n for st in fn.body for n in _ast.walk(st)]
+    for n in body_nodes:
+        if isinstance(n, _FORBIDDEN_NODES):
+            bad.append('statement/expression kind %s' % type(n).__name__)
+    local_names = set()
+
+    def targets(t, store):
+        if isinstance(t, _ast.Name):
+            store.add(t.id)
+        elif isinstance(t, (_ast.Tuple, _ast.List)):
+            for e in t.elts:
+                targets(e, store)
+        elif isinstance(t, _ast.Starred):
+            targets(t.value, store)
+    for n in body_nodes:
+        if isinstance(n, _ast.Assign):
+            for t in n.targets:
+                targets(t, local_names)
+        elif isinstance(n, (_ast.AugAssign, _ast.AnnAssign, _ast.For)):
+            targets(n.target, local_names)
+        elif isinstance(n, _ast.comprehension):
+            targets(n.target, local_names)
+    own = local_names - set(params)          # names that can only hold objects made inside the function ... or aliases
+
+    def check_target(t):
+        if isinstance(t, _ast.Name):
+            if t.id in params:
+                bad.append('parameter %s is re-bound' % t.id)
+        elif isinstance(t, (_ast.Tuple, _ast.List)):
+            for e in t.elts:
+                check_target(e)
+        elif isinstance(t, _ast.Starred):
+            check_target(t.value)
+        elif isinstance(t, _ast.Subscript):
+            if not (isinstance(t.value, _ast.Name) and t.value.id in own):
+                bad.append('item assignment into something that is not a local container: %s' % _ast.unparse(t))
+        else:
+            bad.append('assignment target %s' % _ast.unparse(t))
+    for n in body_nodes:
+        if isinstance(n, _ast.Assign):
+            for t in n.targets:
+                check_target(t)
+        elif isinstance(n, (_ast.AugAssign, _ast.AnnAssign, _ast.For)):
+            check_target(n.target)
+        elif isinstance(n, _ast.comprehension):
+            check_target(n.target)
+        elif isinstance(n, _ast.Name) and isinstance(n.ctx, _ast.Load):
+            if n.id not in params and n.id not in local_names and n.id not in _SAFE_BUILTINS:
+                bad.append('reads the non-local name %s' % n.id)
+        elif isinstance(n, _ast.Attribute):
+            if n.attr.startswith('_'):
+                bad.append('attribute %s' % n.attr)
+            if isinstance(n.value, _ast.Name) and n.value.id in params and n.attr not in _PARAM_READONLY_ATTRS:
+                bad.append('calls/reads .%s on the parameter %s' % (n.attr, n.value.id))
+    return sorted(set(bad))
+
+
+def _small_domain():
+    """COMPLETE small domain of user tables (as ordered item lists):
+       - the empty table;
+       - marker keys: five pairwise distinct symbols pin every rotation down as a permutation of positions
+         (all 120 arrangements of 10..14, and one with non-int hashables);
+       - over 2 states: ALL tables with one, two and three distinct keys in every order (32 + 992 + 29760), images
+         1,2,3 pairwise different, so that every overwrite between explicit entries and rotations (last wins) shows;
+       - over 3 states: all 243 single-entry tables and all ordered pairs within one rotation class."""
+    import itertools
+    yield []
+    for perm in itertools.permutations((10, 11, 12, 13, 14)):
+        yield [(perm, 7)]
+    yield [(('c', 't', 'r', 'b', 'l'), 'image')]
+    keys2 = list(itertools.product((0, 1), repeat=5))
+    for k in keys2:
+        yield [(k, 1)]
+    for a, b in itertools.permutations(keys2, 2):
+        yield [(a, 1), (b, 2)]
+    for a, b, c in itertools.permutations(keys2, 3):
+        yield [(a, 1), (b, 2), (c, 3)]
+    for k in itertools.product((0, 1, 2), repeat=5):
+        yield [(k, 4)]
+        cls = []
+        for q in _rot_class(k):
+            if q not in cls:
+                cls.append(q)
+        for a, b in itertools.permutations(cls, 2):
+            yield [(a, 5), (b, 6)]
+
+
+def _semantic_gate(fn_node):
+    """conditions (i)-(iii) for an `_init_rule_table` of unknown shape; returns {'accepted': bool, ...}"""
+    import copy
+    import inspect
+    import cellpylib as cpl
+    out = {'accepted': False}
+    objections = _purity(fn_node)
+    out['purity (AST)'] = objections or 'only parameters read, only locals and own containers written'
+    if objections:
+        return out
+    try:
+        static = inspect.getattr_static(cpl.CTRBLRule, '_init_rule_table')
+    except AttributeError:
+        out['callable'] = 'CTRBLRule._init_rule_table not found at run time'
+        return out
+    if not isinstance(static, staticmethod):
+        out['callable'] = 'not a staticmethod'
+        return out
+    f = cpl.CTRBLRule._init_rule_table
+    # (i) complete small domain, every flag value by truthiness
+    n = 0
+    for items in _small_domain():
+        for flag in (False, True):
+            d = dict(items)
+            keep = copy.deepcopy(d)
+            try:
+                got = f(d, flag)
+            except Exception as e:  # noqa
+                out['small domain'] = 'raises %s on %r, add_rotations=%r' % (type(e).__name__, items, flag)
+                return out
+            n += 1
+            want = _ref_init(keep, flag)
+            if type(got) is not dict or got != want:
+                out['small domain'] = 'differs from the property on %r, add_rotations=%r: %r' % (items, flag, got)
+                return out
+            # (iii) no aliasing, argument untouched
+            if got is d:
+                out['aliasing'] = 'returns its argument (add_rotations=%r)' % flag
+                return out
+            if d != keep or list(d) != list(keep):
+                out['aliasing'] = 'modifies its argument on %r' % (items,)
+                return out
+            if n % 97 == 0 or len(items) <= 1:
+                d[(9, 9, 9, 9, 9)] = 9
+                for k in list(keep)[:1]:
+                    del d[k]
+                if got != want:
+                    out['aliasing'] = 'result changes when the argument is edited afterwards (%r, add_rotations=%r)' % (items, flag)
+                    return out
+                again = f(dict(keep), flag)
+                if again is got:
+                    out['aliasing'] = 'two calls return the same object'
+                    return out
+                got[(8, 8, 8, 8, 8)] = 8
+                if f(dict(keep), flag) != want:
+                    out['aliasing'] = 'editing one result changes later results (shared state)'
+                    return out
+    for flag, truth in ((0, False), (1, True), (None, False), ('yes', True), ([], False)):
+        d = {(10, 11, 12, 13, 14): 7}
+        if f(d, flag) != _ref_init(d, truth):
+            out['small domain'] = 'add_rotations=%r is not read by truthiness' % (flag,)
+            return out
+    out['small domain'] = '%d calls (all tables of <= 3 keys over 2 states in every order, marker keys, 3-state classes), ' \
+                          'both flags: equal to the property; result never the argument, argument never modified' % n
+    out['accepted'] = True
+    return out
+
+
 def _ast_gate():
     """returns (ok, details) for the constructor path of cellpylib/ctrbl_rule.py in the tree under test"""
     path = os.path.join(driver.REPO, 'cellpylib', 'ctrbl_rule.py')
@@ -658,8 +842,17 @@ def _ast_gate():
         fns = [n for n in cls.body if isinstance(n, _ast.FunctionDef) and n.name == name]
         allowed = {_shape(_ast.parse(src).body[0]) for src in shapes}
         if len(fns) != 1 or _shape(fns[0]) not in allowed:
-            ok = False
-            details[name] = 'not one of the %d accepted shapes' % len(shapes) if fns else 'not found'
+            sem = None
+            if name == '_init_rule_table' and len(fns) == 1:
+                # not a known shape: accept it only on mechanical grounds (purity by AST, complete small-domain
+                # comparison with the property, run-time no-alias checks); otherwise keep failing closed
+                sem = _semantic_gate(fns[0])
+                details[name + ' (semantic gate)'] = sem
+            if sem is not None and sem.get('accepted'):
+                details[name] = 'unknown shape, accepted by the semantic gate'
+            else:
+                ok = False
+                details[name] = 'not one of the %d accepted shapes' % len(shapes) if fns else 'not found'
             if fns:
                 details[name + ' (source)'] = _ast.unparse(fns[0])[:1500]
         else:
@@ -729,7 +922,10 @@ def _gate_search(seed, budget=5000):
 def _gate_findings(ctx):
     ok, details = _ast_gate()
     if ok:
-        return [{'info': True, 'what': 'AST gate: constructor path of CTRBLRule has an accepted shape', 'details': details}]
+        sem = any('semantic gate' in str(v) for v in details.values())
+        return [{'info': True, 'what': 'AST gate: constructor path of CTRBLRule ' +
+                 ('accepted by the semantic gate (unknown shape of _init_rule_table; purity + complete small domain + '
+                  'no-alias run-time checks)' if sem else 'has an accepted shape'), 'details': details}]
     case = _gate_search(ctx.seed)
     base = {'what': 'AST gate: the constructor path of CTRBLRule (__init__ / _init_rule_table / rule_table) is not one '
                     'of the shapes that were checked against Model/CTRBL.v init_rule_table',
